@@ -357,6 +357,13 @@ pub fn run(prop: &str, seed: u64, ninputs: usize, trace_path: Option<&str>, rep:
             if probe.writes >= 1 {
                 scripts.push(("short1+write-late".into(), Faults { short: vec![1], write_at: expected.len().max(1), ..Default::default() }));
             }
+            // ... and with a failure in the middle of a multi-call hand-over (the buffer being flushed is then
+            // partly delivered: whatever the error path does, it must not deliver any of it again)
+            for (sp, k) in [(1usize, 2usize), (1, 100), (1, 4000), (7, 2), (7, 300), (64, 3), (64, 40)] {
+                if expected.len() > sp * k {
+                    scripts.push((format!("short[{}]+write#{}", sp, k), Faults { short: vec![sp], write_at: k, ..Default::default() }));
+                }
+            }
             let mut trace_budget_left = 120usize;
             for (sname, f) in scripts {
                 // the encoders' output legitimately depends on how the source fragments its data
